@@ -237,7 +237,7 @@ impl<AnyLoader: Loader> Context<AnyLoader> {
         };
         // Note: Should a "full stack" of bases be used here?
         // Or is this fine?
-        let url = relative(&from, url);
+        let url = normalize(relative(&from, url));
         if let Some((path, mut file)) = self.do_find_file(&url, names)? {
             let is_module = !from.is_import();
             let source = from.url(&path);
@@ -336,6 +336,30 @@ fn relative<'a>(base: &SourceKind, url: &'a str) -> Cow<'a, str> {
                 .map(|base| format!("{base}{url}").into())
         })
         .unwrap_or_else(|| url.into())
+}
+
+/// Remove `.` segments and resolve `..` segments of an url.
+///
+/// Different spellings of an url should name the same file, so the
+/// loop detection and the module cache recognize it.
+fn normalize(url: Cow<str>) -> Cow<str> {
+    if !url.split('/').any(|s| s == "." || s == "..") {
+        return url;
+    }
+    let mut result: Vec<&str> = Vec::new();
+    for segment in url.split('/') {
+        match segment {
+            "." => (),
+            ".." if result
+                .last()
+                .is_some_and(|s| !s.is_empty() && *s != "..") =>
+            {
+                result.pop();
+            }
+            segment => result.push(segment),
+        }
+    }
+    result.join("/").into()
 }
 
 impl<T: fmt::Debug> fmt::Debug for Context<T> {
